@@ -63,6 +63,37 @@ Theorem c15_callback_alloc_balance : forall coro vd ops,
 Proof. exact callback_alloc_balance. Qed.
 Print Assumptions c15_callback_alloc_balance.
 
+(* A listener that does nothing but re-await: resumed with a value it logs exactly that value and is back at the
+   head of the chain before its resumption ends — before the collector (or anything else) can run again — with
+   unchanged script; together with c15_broadcast (everybody in the chain gets the value) this is why it misses none. *)
+Theorem c15_reawait_rejoins : forall s g v, await_resume s = Some v ->
+  l_limit (getl s g) = O -> l_pause (getl s g) = false ->
+  exists s', co_resumed g s = (s', [ERecv g v; EAwait g], false) /\
+     chain s' = (g, false) :: chain s /\ queue s' = queue s /\ same_val s s' /\
+     l_limit (getl s' g) = O /\ l_pause (getl s' g) = false /\
+     (forall inl, run_item inl (g, true) s = (s', [ERecv g v; EAwait g])).
+Proof. exact reawait_rejoins. Qed.
+Print Assumptions c15_reawait_rejoins.
+
+(* Subscribers on other threads against the collector's exchanges, every schedule, any number of subscribers and
+   exchanges, every CAS attempt its own step: the rounds the collector took plus the chain contain exactly the
+   subscribers whose CAS succeeded, each exactly once (never lost, never doubled); so a subscriber that published
+   before an exchange is in that round or an earlier one, and one that publishes after it is in the chain for the next. *)
+Theorem c15_concurrent_subscribe : forall ids k sched, NoDup ids ->
+  let c := cs_run (cs0 ids k) sched in
+  Permutation (concat (c_rounds c) ++ c_head c) (published c) /\
+  NoDup (concat (c_rounds c) ++ c_head c) /\
+  incl (published c) ids /\
+  (forall x, In x ids -> ~ In x (published c) -> ~ In x (concat (c_rounds c) ++ c_head c)).
+Proof. exact concurrent_subscribe. Qed.
+Print Assumptions c15_concurrent_subscribe.
+
+(* lock-freedom of the subscribe loop in the model: an unpublished subscriber that takes two steps in a row publishes *)
+Theorem c15_subscribe_two_attempts : forall c j x, nth_error (c_subs c) j = Some x -> spub x = false ->
+  exists y, nth_error (c_subs (cs_thread (cs_thread c j) j)) j = Some y /\ spub y = true /\ sid y = sid x.
+Proof. exact cs_two_attempts. Qed.
+Print Assumptions c15_subscribe_two_attempts.
+
 (* The statement of C15 does NOT hold for a collector called inside a coroutine whose result is discarded and
    that is called again before the coroutine suspends (finding F-C15): listener 1 waits when 1 and is in the
    chain when 1 is emitted, yet the only value it ever receives is 3; the trace oracle rejects the run. *)
